@@ -127,6 +127,7 @@ def execute(cfg, V):
     w_max = V.val('w_max', 'pos')
     obs = []
     mode = cfg['mode']
+    if mode == 'time': V.val('t', 'rany')          # declared up front so that every path has a value for it in replay
     exp_f = expected_frequencies(cfg, V, params, w_max)
     got_f = cct.frequency_components(circuit, w_max)
     obs.append(Ob('number of analysed frequencies', 0 if len(got_f) == len(exp_f) else 1))
@@ -282,6 +283,10 @@ def configs(tier, seed):
                 for mode in ('freqs', 'spectrum', 'two_sided', 'time'):
                     if tier == 'quick' and g is None and mode in ('two_sided',): continue
                     cfgs.append(dict(base, mode=mode))
+    if tier == 'quick':
+        # a periodic source together with a sinusoidal source whose frequency may fall next to a harmonic
+        mix = {'components': [('V0', 'n1', 'n0', 'Vper', 'rect'), ('I9', 'n0', 'n2', 'Iac', 1), ('R1', 'n1', 'n2', 'R'), ('C2', 'n2', 'n0', 'C')], 'ground': 'n0'}
+        cfgs.append(dict(mix, mode='spectrum')); cfgs.append(dict(mix, mode='time'))
     tw = [c for c in cfgs if c['mode'] == 'time' and all(it[3] not in ('Vper', 'Iper') for it in c['components'])]
     twins = [dict(c, twin=True) for c in rng.sample(tw, min(4, len(tw)))]
     return cfgs + twins, None
